@@ -12,7 +12,7 @@ ordering converters of the `HelicityModel` attrs class + `naming.natural_sorting
   arguments) is executed on the Python side, not modelled;
 * the model record carries `expr` = the value of the `expression` property (it is only used
   through its free symbols by `rename`; `PoolSum.evaluate` belongs to C18);
-* `Variant` = the two switches of fix 137fbcb.
+* `Variant` = the two switches of fix 137fbcb and the switch of fix c9b6eb9.
 
 The `main` at the end is the line-protocol driver (`lake env lean --run`); parser and printer
 are `partial` driver code and are validated on every run by an echo round trip.
@@ -38,14 +38,18 @@ structure Variant where
   collectsParams : Bool
   /-- a target name that already exists maps onto the existing symbol (137fbcb, part 2). -/
   reusesExisting : Bool
+  /-- the collected symbols are looked through in sorted order and ONE new symbol is made per new name,
+  with the assumptions of the first source (c9b6eb9); before that: set order, one new symbol per source. -/
+  oneSymbolPerNewName : Bool
 deriving DecidableEq, Repr
 
-def Variant.sound (v : Variant) : Prop := v.collectsParams = true ∧ v.reusesExisting = true
+def Variant.sound (v : Variant) : Prop :=
+  v.collectsParams = true ∧ v.reusesExisting = true ∧ v.oneSymbolPerNewName = true
 
 instance (v : Variant) : Decidable v.sound := by unfold Variant.sound; exact inferInstance
 
-/-- The variant of the tree after 137fbcb. -/
-def Variant.fixed : Variant := ⟨true, true⟩
+/-- The variant of the tree after 137fbcb and c9b6eb9. -/
+def Variant.fixed : Variant := ⟨true, true, true⟩
 
 /-! ### expressions -/
 
@@ -246,27 +250,57 @@ def collect (v : Variant) (m : Model) : List Sym :=
     ++ (if v.collectsParams then m.params.map (·.1) else [])
     ++ (m.kinvars.map (fun kv => kv.2.syms)).flatten)
 
-/-- `existing_symbols = {s.name: s for s in symbols if s.name not in renames}`, looked up by name.
-The source iterates a set; if two collected, unrenamed symbols share the name the choice
-depends on the set order (the harness does not generate that case). Here: the first one. -/
-def existingNamed (ρ : List (Name × Name)) (symbols : List Sym) (n : Name) : Option Sym :=
-  symbols.find? (fun s => (renameOf ρ s.name).isNone && s.name == n)
+def natCmp (a b : Nat) : Ordering := if a < b then .lt else if b < a then .gt else .eq
 
-/-- image of one collected symbol -/
-def target (v : Variant) (ρ : List (Name × Name)) (symbols : List Sym) (s : Sym) : Sym :=
+/-- the sort key of c9b6eb9: `(s.name, str(sorted(s.assumptions0.items())))`. Names compare as Python
+strings (code points); the assumptions id stands for the second component — the harness numbers the
+assumption sets of a run in the order of those strings. -/
+def symCmp (a b : Sym) : Ordering :=
+  match natListCmp a.name b.name with
+  | .eq => natCmp a.asm b.asm
+  | o => o
+
+def symLt (a b : Sym) : Bool := symCmp a b == .lt
+
+/-- the order in which the collected symbols are looked through: `sorted(symbols, key=…)` since c9b6eb9,
+before that the iteration order of the set (here: the order of `collect`; the harness does not generate
+inputs on which that order matters for the old variant) -/
+def lookupOrder (v : Variant) (symbols : List Sym) : List Sym :=
+  if v.oneSymbolPerNewName then isort symLt symbols else symbols
+
+/-- the unrenamed symbol that already has the name `n`: first loop of c9b6eb9
+(`targets.setdefault(s.name, s)` for `s.name not in renames`), `existing_symbols` before -/
+def existingNamed (ρ : List (Name × Name)) (ordered : List Sym) (n : Name) : Option Sym :=
+  ordered.find? (fun s => (renameOf ρ s.name).isNone && s.name == n)
+
+/-- the first symbol (in lookup order) that is renamed to `n'`: second loop of c9b6eb9 -/
+def firstSource (ρ : List (Name × Name)) (ordered : List Sym) (n' : Name) : Option Sym :=
+  ordered.find? (fun s => renameOf ρ s.name == some n')
+
+/-- the new symbol made for `s ↦ n'` when no unrenamed symbol is called `n'` -/
+def freshTarget (v : Variant) (ρ : List (Name × Name)) (ordered : List Sym) (s : Sym) (n' : Name) : Sym :=
+  if v.oneSymbolPerNewName then
+    match firstSource ρ ordered n' with
+    | some a₀ => ⟨n', a₀.asm⟩
+    | none => ⟨n', s.asm⟩          -- unreachable for `s ∈ ordered`
+  else ⟨n', s.asm⟩
+
+/-- image of one collected symbol; `ordered = lookupOrder v symbols` -/
+def target (v : Variant) (ρ : List (Name × Name)) (ordered : List Sym) (s : Sym) : Sym :=
   match renameOf ρ s.name with
   | none => s
   | some n' =>
       if v.reusesExisting then
-        match existingNamed ρ symbols n' with
+        match existingNamed ρ ordered n' with
         | some t => t
-        | none => ⟨n', s.asm⟩
-      else ⟨n', s.asm⟩
+        | none => freshTarget v ρ ordered s n'
+      else freshTarget v ρ ordered s n'
 
 /-- `symbol_mapping` -/
 def symbolMapping (v : Variant) (m : Model) (ρ : List (Name × Name)) : List (Sym × Sym) :=
   let symbols := collect v m
-  symbols.map (fun s => (s, target v ρ symbols s))
+  let ordered := lookupOrder v symbols
+  symbols.map (fun s => (s, target v ρ ordered s))
 
 /-- the rule as a total function (`xreplace` / `symbol_mapping.get(s, s)`) -/
 def applyMap (mp : List (Sym × Sym)) (s : Sym) : Sym :=
@@ -326,7 +360,7 @@ end Ampverif.Model.C17
 /-! ## line-protocol driver (not part of any theorem)
 
 Requests (one per line):
-* `variant <collectsParams 0|1> <reusesExisting 0|1>`
+* `variant <collectsParams 0|1> <reusesExisting 0|1> <oneSymbolPerNewName 0|1>`
 * `expr E` · `intensity E` · `amp NAME E E` · `param SYM VALUEID` · `kin SYM E` · `comp NAME E`
   — extend the model under construction; `reset` clears it
 * `echo` — print the model under construction
@@ -415,7 +449,7 @@ def handle (st : St) (line : String) : Except String (St × List String) := do
   match toks[0]? with
   | none => return (st, [])
   | some "variant" =>
-      return ({ st with v := ⟨toks[1]? == some "1", toks[2]? == some "1"⟩ }, ["ok"])
+      return ({ st with v := ⟨toks[1]? == some "1", toks[2]? == some "1", toks[3]? == some "1"⟩ }, ["ok"])
   | some "reset" => return ({ st with m := emptyModel }, ["ok"])
   | some "expr" =>
       let (e, _) ← parseExpr toks 1
